@@ -310,8 +310,15 @@ def cfgRegAfterStop : Config := ⟨[[.waitAll], [.stop], [.reg 0, .dereg 0]], [.
 /-- two callbacks owned by two threads, one requester (cb1 is cleaned up by T0 at the end). -/
 def cfgTwoOwners : Config := ⟨[[.stop, .waitAll, .deregIfLive 1], [.reg 0, .dereg 0], [.reg 1]], [.none, .none]⟩
 
+/-- a second, late request_stop() caller arrives while the first is inside the callback, and then
+    deregisters that callback (it must wait for the callback to finish) -/
+def cfgLateStopDereg : Config := ⟨[[.reg 0, .waitAll], [.stop], [.stop, .dereg 0]], [.none]⟩
+/-- two request_stop() callers and a callback that destroys its own registration -/
+def cfgLateStopSelfDereg : Config := ⟨[[.reg 0, .waitAll, .deregIfLive 0], [.stop], [.stop]], [.deregSelf]⟩
+
 def configs : List (String × Config) :=
   [("race", cfgRace), ("two_stops", cfgTwoStops), ("self_dereg", cfgSelfDereg),
-   ("dereg_other", cfgDeregOther), ("reg_after_stop", cfgRegAfterStop), ("two_owners", cfgTwoOwners)]
+   ("dereg_other", cfgDeregOther), ("reg_after_stop", cfgRegAfterStop), ("two_owners", cfgTwoOwners),
+   ("late_stop_dereg", cfgLateStopDereg), ("late_stop_self_dereg", cfgLateStopSelfDereg)]
 
 end Unifex.Proto.StopSource
